@@ -19,6 +19,7 @@ type Property struct {
 	Explain    string
 	NotDecided string
 	Assumes    []string
+	Technique  string
 	// MultiConfig: rules touch build-tagged / OS-specific files; thorough re-runs on other configs.
 	MultiConfig bool
 }
@@ -62,6 +63,24 @@ func main() {
 		if len(res.Failed) > 0 {
 			os.Exit(2)
 		}
+		os.Exit(0)
+	case "--list":
+		type li struct {
+			ID, Explain, NotDecided, Technique string
+			Assumes                             []string
+		}
+		var out []li
+		var ids []string
+		for id := range registry {
+			ids = append(ids, id)
+		}
+		sort.Strings(ids)
+		for _, id := range ids {
+			r := registry[id]
+			out = append(out, li{r.ID, r.Explain, r.NotDecided, r.Technique, r.Assumes})
+		}
+		b, _ := json.MarshalIndent(out, "", " ")
+		fmt.Println(string(b))
 		os.Exit(0)
 	case "--mutant":
 		// internal: verifcheck --mutant <prop> <mutant-file>
